@@ -37,14 +37,14 @@ func flagsFor(mode string) txscript.ScriptFlags {
 	return fl
 }
 
-func execSign(f []string) string {
+func execSign(c *ectx, f []string) string {
 	// form flagsmode cache ht idx origTx origSpent mutTx mutSpent
 	if len(f) != 9 {
 		return "bad-op"
 	}
 	idx := int(atoi(f[4]))
-	tx := decTx(f[7])
-	spent := decSpent(f[8])
+	tx := c.decTx(f[7])
+	spent := c.decSpent(f[8])
 	if idx >= len(spent) || idx >= len(tx.TxIn) {
 		return "bad-op"
 	}
@@ -58,7 +58,7 @@ func execSign(f []string) string {
 	var sc *txscript.SigCache
 	if strings.HasSuffix(f[2], "s") {
 		sc = txscript.NewSigCache(100)
-		otx, osp := decTx(f[5]), decSpent(f[6])
+		otx, osp := c.decTx(f[5]), c.decSpent(f[6])
 		if idx < len(otx.TxIn) && idx < len(osp) {
 			of := mkFetcher(otx, osp)
 			if vm, err := txscript.NewEngine(osp[idx].PkScript, otx, idx, flagsFor(f[1]), sc,
